@@ -527,6 +527,21 @@
                     lemma_map_prefix(__i4.remaining(), __r4.remaining(), new.router_keys_spec());
                     assert(__r4.will_return_none() ==> deref_seq(__r4.remaining()) =~= new.router_keys_spec());
                 }
+//@ fn StandardDelta::get
+//@ spec
+    ensures
+        idx < self.items@.len() ==> res == Some((&self.items@[idx as int].0, self.items@[idx as int].1)),
+        idx >= self.items@.len() ==> res is None,
+//@ closure 1
+|item: &(P, Action)| -> (r: (&P, Action)) ensures r == (&item.0, item.1)
+//@ fn AspaDelta::get
+//@ spec
+    ensures
+        // C11: an ASPA entry is served as an announcement (Announce, Update) or a withdrawal
+        idx < self.items@.len() ==> res == Some((&self.items@[idx as int].0, rtr_action(self.items@[idx as int].1))),
+        idx >= self.items@.len() ==> res is None,
+//@ closure 1
+|item: &(Aspa, AspaAction)| -> (r: (&Aspa, Action)) ensures r == (&item.0, rtr_action(item.1))
 //@ global
 // ---------------------------------------------------------------- order and clone assumptions on P
 spec fn lt<P: Ord>(a: P, b: P) -> bool { a.cmp_spec(&b) == Ordering::Less }
@@ -2033,4 +2048,21 @@ proof fn lemma_map_prefix<T: Ord>(inner: Seq<(&T, &PayloadInfo)>, mapped: Seq<&T
     assert forall|i: int, j: int| 0 <= i < j < m.len() implies lt(m[i], m[j]) by {
         assert(m[i] == full[i] && m[j] == full[j]);
     }
+}
+
+// the RTR action an ASPA change-set entry is served as (C11: Update counts as an announcement)
+spec fn rtr_action(a: AspaAction) -> Action {
+    match a {
+        AspaAction::Announce => Action::Announce,
+        AspaAction::Update(_) => Action::Announce,
+        AspaAction::Withdraw(_) => Action::Withdraw,
+    }
+}
+impl vstd::std_specs::convert::FromSpecImpl<AspaAction> for Action {
+    open spec fn obeys_from_spec() -> bool { true }
+    closed spec fn from_spec(v: AspaAction) -> Action { rtr_action(v) }
+}
+impl<'a> vstd::std_specs::convert::FromSpecImpl<&'a AspaAction> for Action {
+    open spec fn obeys_from_spec() -> bool { true }
+    closed spec fn from_spec(v: &'a AspaAction) -> Action { rtr_action(*v) }
 }
